@@ -601,12 +601,40 @@ func inParseFloat(g *G, fn *ssa.Function, args []Value) Value {
 		return Tuple{c.FPConst(f), (*IfaceV)(nil)}
 	}
 	bs := s.Bytes()
-	name := fmt.Sprintf("pf_ok_%d", len(bs))
-	ok := c.UF(name, SBool, 0, bs)
-	val := c.UF(fmt.Sprintf("pf_val_%d", len(bs)), SFP, 0, bs)
-	m.res.Intrinsics["strconv.ParseFloat(symbolic: uninterpreted pf_val/pf_ok)"] = true
 	if len(bs) == 0 {
 		return Tuple{c.FPConst(0), g.numError("ParseFloat", s, false)}
+	}
+	var ok, val *Term
+	isDigit := func(b *Term) *Term { return c.And(c.Ule(c.BV(8, '0'), b), c.Ule(b, c.BV(8, '9'))) }
+	digitVal := func(b *Term) *Term { return c.FFromSBV(c.Zext(c.Sub(b, c.BV(8, '0')), 64)) }
+	switch len(bs) {
+	case 1:
+		// exact: a single decimal digit
+		ok, val = isDigit(bs[0]), digitVal(bs[0])
+	case 2:
+		// exact: "dd", "+d", "-d", "d.", ".d" are the only two-character floats
+		a, b := bs[0], bs[1]
+		dd := c.And(isDigit(a), isDigit(b))
+		pd := c.And(c.Eq(a, c.BV(8, '+')), isDigit(b))
+		md := c.And(c.Eq(a, c.BV(8, '-')), isDigit(b))
+		dp := c.And(isDigit(a), c.Eq(b, c.BV(8, '.')))
+		pdot := c.And(c.Eq(a, c.BV(8, '.')), isDigit(b))
+		ok = c.Or(c.Or(c.Or(dd, pd), c.Or(md, dp)), pdot)
+		ddv := c.FFromSBV(c.Add(c.Mul(c.Zext(c.Sub(a, c.BV(8, '0')), 64), c.BV(64, 10)), c.Zext(c.Sub(b, c.BV(8, '0')), 64)))
+		val = c.Ite(dd, ddv, c.Ite(pd, digitVal(b), c.Ite(md, c.FNeg(digitVal(b)), c.Ite(dp, digitVal(a), c.FDiv(digitVal(b), c.FPConst(10))))))
+	default:
+		ok = c.UF(fmt.Sprintf("pf_ok_%d", len(bs)), SBool, 0, bs)
+		val = c.UF(fmt.Sprintf("pf_val_%d", len(bs)), SFP, 0, bs)
+		// necessary condition: only characters that can occur in a float literal
+		for _, b := range bs {
+			allowed := c.False
+			for _, ch := range []byte("0123456789+-.eEinfINFatyAYxXpP_abcdfABCDF") {
+				allowed = c.Or(allowed, c.Eq(b, c.BV(8, uint64(ch))))
+			}
+			ok = c.And(ok, allowed)
+		}
+		m.res.Intrinsics["strconv.ParseFloat(symbolic text longer than 2 bytes: uninterpreted pf_val/pf_ok)"] = true
+		m.pathAbstract = true
 	}
 	if m.cond2("parsefloat-ok", ok) {
 		return Tuple{val, (*IfaceV)(nil)}
@@ -933,6 +961,7 @@ func (g *G) regexpCompile(src *StrV) (Value, *IfaceV) {
 		ro.re = re
 		return cell, nil
 	}
+	m.pathAbstract = true
 	okT := m.ctx.UF(fmt.Sprintf("rx_ok_%d", len(src.Bytes())), SBool, 0, src.Bytes())
 	m.res.Intrinsics["regexp.Compile(symbolic: uninterpreted rx_ok)"] = true
 	if m.cond2("regexp-ok", okT) {
@@ -973,6 +1002,7 @@ func inRegexpMatchString(g *G, fn *ssa.Function, args []Value) Value {
 		return m.ctx.True
 	}
 	m.res.Intrinsics["regexp.MatchString(symbolic: uninterpreted rx_match)"] = true
+	m.pathAbstract = true
 	return m.ctx.UF(fmt.Sprintf("rx_match_%d_%d", len(ro.src.Bytes()), len(s.Bytes())), SBool, 0, all)
 }
 
